@@ -212,6 +212,39 @@ class DynamicSlicePlugin(PrimitiveLeafPlugin):
                     _stamp_type_and_shape(slice_sizes_val, (len(slice_sizes),))
                     _ensure_value_metadata(ctx, slice_sizes_val)
 
+        # XLA clamps every start index into [0, dim - size] so that the window stays inside
+        # the operand; ONNX Slice would shorten the window instead.
+        operand_dims = tuple(getattr(operand_var.aval, "shape", ()))
+        try:
+            max_starts = [
+                int(dim) - int(size) for dim, size in zip(operand_dims, slice_sizes)
+            ]
+        except Exception:
+            max_starts = None
+        if (
+            max_starts is not None
+            and len(max_starts) == rank
+            and not eqn.params.get("strides")
+        ):
+            zeros_val = _const_i64(ctx, [0] * rank, "dyn_slice_zero_starts")
+            max_starts_val = _const_i64(ctx, max_starts, "dyn_slice_max_starts")
+            starts_lower = ctx.builder.Max(
+                starts_concat,
+                zeros_val,
+                _outputs=[ctx.fresh_name("dyn_slice_starts_ge0")],
+            )
+            starts_lower.type = ir.TensorType(ir.DataType.INT64)
+            _stamp_type_and_shape(starts_lower, (rank,))
+            _ensure_value_metadata(ctx, starts_lower)
+            starts_concat = ctx.builder.Min(
+                starts_lower,
+                max_starts_val,
+                _outputs=[ctx.fresh_name("dyn_slice_starts_clamped")],
+            )
+            starts_concat.type = ir.TensorType(ir.DataType.INT64)
+            _stamp_type_and_shape(starts_concat, (rank,))
+            _ensure_value_metadata(ctx, starts_concat)
+
         ends_val = ctx.builder.Add(
             starts_concat,
             slice_sizes_val,
